@@ -60,12 +60,12 @@ def subdir(name):
 # --------------------------------------------------------------------------------------------------
 # object history (a dimension every model scenario carries)
 # --------------------------------------------------------------------------------------------------
-HISTORIES = [[], [], [], [], [], ["reload"], ["deepcopy"], ["prepredict"], ["refit"], ["prepredict", "reload"], ["get_distances"], ["get_distances_norm", "deepcopy"], ["stale_matrix"], ["stale_matrix", "prepredict"], ["save"], ["save", "get_distances"]]
+HISTORIES = [[], [], [], [], [], ["reload"], ["deepcopy"], ["prepredict"], ["refit"], ["prepredict", "reload"], ["get_distances"], ["get_distances_norm", "deepcopy"], ["stale_matrix"], ["stale_matrix", "prepredict"], ["save"], ["save", "get_distances"], ["other_object"], ["other_object", "prepredict"]]
 
 
 def derive_history(scn):
     """The properties speak about 'a fitted model', whatever its past: half of all scenarios use a fresh object, the others
-    one that was fitted twice, has already predicted, was asked for its distance matrix, carries a stale matrix with pre-computed distances switched off, was saved (and kept in use), was deep-copied, or went through
+    one that was fitted twice, has already predicted, was asked for its distance matrix, carries a stale matrix with pre-computed distances switched off, was saved (and kept in use), shared the process with another object of its class, was deep-copied, or went through
     save -> load into a freshly constructed object.  The choice is a function of the scenario's content (no random stream is consumed; replay files carry it)."""
     if "history" not in scn:
         key = json.dumps([scn.get("kind"), scn.get("mode"), scn.get("metric"), scn.get("I_train"), scn.get("Y"), scn.get("Q"), scn.get("U")], sort_keys=True)
@@ -96,6 +96,34 @@ def apply_history_step(model, step):
         import numpy as np
         with np.errstate(all="ignore"):
             model.get_distances(step == "get_distances_norm")
+        return model
+    if step == "other_object":
+        # another object of the same class lives its own life in between (constructed with another metric, fitted on unrelated
+        # data, used): objects share nothing
+        import numpy as np
+        cls = type(model)
+        r = np.random.default_rng(99)
+        y = np.array([j % 2 for j in range(9)])
+        X = np.abs(r.normal(size=(9, 3))) * 0.2 + 1.0 + 6.0 * y[:, None]
+        name = cls.__name__
+        try:
+            if name == "UnsupervisedOPF":
+                o = cls(min_k=1, max_k=3, distance="manhattan")
+                o.fit(X, y)
+                o.propagate_labels()
+            elif name == "KNNSupervisedOPF":
+                o = cls(max_k=3, distance="manhattan")
+                o.fit(X, y, X[:4] + 0.05, y[:4])
+            elif name == "SemiSupervisedOPF":
+                o = cls(distance="manhattan")
+                o.fit(X, y, X[:3] + 0.07)
+            else:
+                o = cls(distance="manhattan")
+                o.fit(X, y)
+            o.predict(X[::2] + 0.01)
+            o.get_distances()
+        except Exception:
+            pass
         return model
     if step == "save":
         # saving does not alter the original: the scenario continues with the object that was saved
